@@ -1111,3 +1111,33 @@ func QuirkNames(got, want val.Item) []string {
 	}
 	return out
 }
+
+// Canon renders the whole model state canonically (used as porcupine state identity).
+func (c *Client) Canon() string {
+	names := []string{}
+	for n := range c.Tables {
+		names = append(names, n)
+	}
+	sort.Strings(names)
+	var sb strings.Builder
+	sb.WriteString("fail=" + c.Fail + ";")
+	for _, n := range names {
+		t := c.Tables[n]
+		fmt.Fprintf(&sb, "table %s %s/%s %s/%v [", n, t.Spec.Hash, t.Spec.Range, t.Spec.Billing, t.Spec.Throughput)
+		for _, ix := range t.Spec.Indexes {
+			fmt.Fprintf(&sb, "%s:%s/%s/%v,", ix.Name, ix.Hash, ix.Range, ix.Local)
+		}
+		sb.WriteString("] {")
+		keys := []string{}
+		for k := range t.Items {
+			keys = append(keys, k)
+		}
+		sort.Strings(keys)
+		for _, k := range keys {
+			sb.WriteString(t.Items[k].Canon())
+			sb.WriteString(";")
+		}
+		sb.WriteString("}")
+	}
+	return sb.String()
+}
